@@ -100,6 +100,26 @@ Definition check_stream (v : tval) : bool :=
   && Bool.eqb (Nat.eqb (op_result (nth_error (snd s) 2)) 1) (vbool (vnth 4 v))
   && Nat.eqb (p_rclose (fst s)) 1.
 
+(* ---- kind 5: a complete Close at a point inside Start ---- *)
+(* [5; ctx_first; spawns; steps_done; obs [state; onClosed; start_ok; monitors_alive]] *)
+Definition life_model (v : tval) : esh * list epc :=
+  let cf := vbool (vnth 1 v) in let sp := vnat (vnth 2 v) in
+  erun cf sp [e_start_pc cf; ELoad] (repeat 0 (vnat (vnth 3 v)) ++ repeat 1 6 ++ repeat 0 (sp + 4)).
+Definition life_obs (s : esh * list epc) : list nat :=
+  [e_state (fst s); e_cb (fst s);
+   match nth_error (snd s) 0 with Some (EStartRet true) => 1 | _ => 0 end;
+   if e_monitors_alive (fst s) then 1 else 0].
+Definition check_life (v : tval) : bool := nat_list_eqb (life_obs (life_model v)) (map vnat (vl (vnth 4 v))).
+
+(* ---- kind 6: k Close calls while a forwarding write is blocked on a stalled peer ---- *)
+(* [6; hold; k; obs_close_returned] *)
+Definition stall_model (v : tval) : fsh * list fth :=
+  let k := vnat (vnth 2 v) in
+  run _ _ (fstep (vbool (vnth 1 v))) (finit, {| f_stall := true; f_pc := WLock |} :: repeat {| f_stall := false; f_pc := KLock |} k)
+      ([0; 0; 0] ++ concat (repeat (seq 0 (S k)) 8)).
+Definition check_stall (v : tval) : bool :=
+  Bool.eqb (forallb (fun t => negb (f_close_pending t)) (snd (stall_model v))) (vbool (vnth 3 v)).
+
 Definition check (v : tval) : bool :=
   match vnat (vnth 0 v) with
   | 0 => check_dispose v
@@ -107,6 +127,8 @@ Definition check (v : tval) : bool :=
   | 2 => check_tunnel_park v
   | 3 => check_traffic v
   | 4 => check_stream v
+  | 5 => check_life v
+  | 6 => check_stall v
   | _ => false
   end.
 
@@ -123,5 +145,7 @@ Definition predict (v : tval) : tval :=
                                                (map vbool (vl (vnth 4 v))) (map vnat (vl (vnth 5 v))))))
   | 3 => let '(sh, ls) := traffic_model v in VL [venc_z (r_stats sh); VL (map venc_z (r_calls sh)); venc_z (r_last sh)]
   | 4 => let s := stream_model v in vnats [op_result (nth_error (snd s) 0); op_result (nth_error (snd s) 2); p_panics (fst s)]
+  | 5 => vnats (life_obs (life_model v))
+  | 6 => vnats [if forallb (fun t => negb (f_close_pending t)) (snd (stall_model v)) then 1 else 0]
   | _ => VL []
   end.
